@@ -373,8 +373,11 @@ def _run(plan, base):
             stats["probes"]["real_joblib_agree_with_simulated"] = int(same)
             log.append(["real", plan["nproc"], int(same)])
             if not same:
-                raise RuntimeError("SIMULATOR-FIDELITY: output under real joblib differs from the 1-worker/simulated output "
-                                   f"(ns={ns} nbatch={plan['nbatch']} nproc={plan['nproc']}); not replayable, reported as a harness error")
+                # an observation under real, uncontrolled scheduling: not replayable, so it is never reported as a
+                # VIOLATION by itself; the runner turns it into a harness error only if the simulated exploration
+                # finds nothing that explains it
+                stats["fidelity_mismatch"] = (f"output under real joblib differs from the 1-worker/simulated output "
+                                              f"(ns={ns} nbatch={plan['nbatch']} nproc={plan['nproc']})")
         # d: byte-identical for any number of workers / schedule
         a = outs["ref"].read_bytes()
         b = outs["sim"].read_bytes()
